@@ -55,6 +55,7 @@ func c16Reader(src []byte, sel int) (io.Reader, func()) {
 }
 
 type c16Case struct {
+	Dup  int         `json:"dup,omitempty"` // >0: the transaction message at place (Dup-1) mod n is listed once more at the end (same object)
 	Txs  []c16TxSpec `json:"txs"`
 	Ctor int         `json:"ctor"` // 0 NewBlock 1 FromBytes 2 FromReader 3 FromBlockAndBytes
 	Ops  []c16Op     `json:"ops"`
@@ -135,6 +136,12 @@ func evalC16(c c16Case, o *Obs) error {
 	msg := wire.NewMsgBlock(&wire.BlockHeader{Version: 3, Bits: 0x1d00ffff, Nonce: uint32(len(c.Txs))})
 	for i, s := range c.Txs {
 		msg.AddTransaction(buildC16Tx(s, i))
+	}
+	if c.Dup > 0 && len(msg.Transactions) > 0 && len(msg.Transactions) < 300 {
+		// the same message object listed a second time (a duplicated last transaction, a template builder reusing one
+		// message): two places in the block, two wrappers, each with its own index
+		msg.AddTransaction(msg.Transactions[(c.Dup-1)%len(msg.Transactions)])
+		o.Class("C16:one-message-object-at-two-places")
 	}
 	raw, err := serializeBlock(msg)
 	if err != nil {
@@ -440,6 +447,9 @@ func genC16(t *rapid.T) c16Case {
 	default:
 		n = rapid.IntRange(1, 8).Draw(t, "n")
 	}
+	if rapid.IntRange(0, 9).Draw(t, "dup") == 0 {
+		c.Dup = rapid.IntRange(1, 9).Draw(t, "dupwhich")
+	}
 	withTokens := rapid.Bool().Draw(t, "tokens")
 	bare := rapid.IntRange(0, 7).Draw(t, "bare") == 0 // a block of the smallest transactions there are (no inputs, no outputs: 10 bytes each)
 	if n >= 10 && rapid.IntRange(0, 7).Draw(t, "thousands") == 0 {
@@ -645,6 +655,19 @@ func evalC16Tx(c c16TxCase, o *Obs) error {
 		if t.Index() != idx {
 			return fmt.Errorf("tx step %d: Index() = %d, want %d", step, t.Index(), idx)
 		}
+	}
+	if c.Ctor == 0 && c.Spec.Salt%2 == 0 {
+		// the message goes on to another life (a miner's extra nonce): wrappers made from now on see what it is now
+		m.LockTime ^= 0x5a5a5a
+		if t2 := bchutil.NewTx(m); *t2.Hash() != m.TxHash() {
+			return fmt.Errorf("a wrapper made after the message was changed reports hash %v, the message hashes to %v", t2.Hash(), m.TxHash())
+		}
+		mb := wire.NewMsgBlock(&wire.BlockHeader{Version: 3})
+		mb.AddTransaction(m)
+		if h, err := bchutil.NewBlock(mb).TxHash(0); err != nil || *h != m.TxHash() {
+			return fmt.Errorf("a block wrapper made after the message was changed reports transaction hash %v (err %v), the message hashes to %v", h, err, m.TxHash())
+		}
+		o.Class("C16:tx-message-wrapped-again-after-a-change")
 	}
 	return nil
 }
